@@ -11,7 +11,10 @@ from concurrent.futures import ThreadPoolExecutor
 VERIF = os.path.dirname(os.path.dirname(os.path.abspath(__file__)))
 EXTRA = {'C01-lower-xycb-variant-lost': ['C02'], 'C02-quote-escape-bit7': ['C01'], 'C05-c-sbc-hl-carry-ffff': ['C06'],
          'C06-c-add-ixiy-contention-pattern': ['C19'], 'C07-fd2e-decode-size': ['C14'], 'C09-snapmod-move-top': [], 'C10-szx-fffd-masked': ['C09'],
-         'C10-pagingtracer-plus2a-decode-diverges-from-c': ['C08'], 'C01-jr-displacement-0x80-read-as-plus-128': ['C02', 'C07']}
+         'C10-pagingtracer-plus2a-decode-diverges-from-c': ['C08'], 'C01-jr-displacement-0x80-read-as-plus-128': ['C02', 'C07'], 'C18-skool2ctl-prev-ctl-not-reset-after-mixed-group': ['C03'],
+         'C05-ldir-fast-flags-from-destination-byte': ['C06'], 'C08-ldir-fast-rom-guard-includes-3fff': ['C06'], 'C19-pycmio-cpir-match-keeps-repeat-cycles': ['C06'],
+         'C13-fast-load-rom-guard-tested-on-unwrapped-address': [], 'C09-szx-128k-tstates-modulo-48k-frame': ['C10'], 'C10-szx-128k-tstates-wrapped-at-48k-frame': ['C09'],
+         'C10-z80-short-ed-run-before-other-byte-dropped': ['C09'], 'C08-c-cpi-memptr-wrap-before-increment': ['C06']}
 
 def one(name, registered, slot):
     d = os.path.join(VERIF, 'seeded', name)
